@@ -173,10 +173,14 @@ Definition zf_ops (zf : list (N * pg)) : list op := map (fun kv => OZeroFill (fs
 Definition wr_ops (wr : list (N * pg)) : list op := map (fun kv => OWrite (fst kv) (snd kv)) wr.
 (* what a connection does to the database file inside one transaction: page writes (new content; pre-images put back by a
    rollback) and, when it rolls back after a spill that had grown the file, the cut back to the old size *)
-Inductive act := AWrite (p : N) (q : pg) | ACut.
+Inductive act :=
+| AWrite (p : N) (q : pg)
+| ACut
+| AFail (c : N).   (* a finalisation of the journal that fails inside LiteFS before anything is published (an I/O error):
+                      nothing it touched survives; SQLite then rolls back - more page writes - and finalises again *)
 Definition act_ops (old : N) (acts : list act) : list op :=
-  map (fun a => match a with AWrite p q => OWrite p q | ACut => OTruncate old end) acts.
-Definition act_ok (k : bool) (a : act) : Prop := match a with AWrite p q => 1 <= p /\ (k = true -> pg_wal q = false) | ACut => True end.
+  map (fun a => match a with AWrite p q => OWrite p q | ACut => OTruncate old | AFail c => OCommitJournalFail c end) acts.
+Definition act_ok (k : bool) (a : act) : Prop := match a with AWrite p q => 1 <= p /\ (k = true -> pg_wal q = false) | ACut | AFail _ => True end.
 
 Lemma run_group_app s a b : run_group s (a ++ b) =
   match run_group s a with (0, s') => run_group s' b | r => r end.
@@ -377,11 +381,12 @@ Lemma run_acts k s0 : wal_mode s0 = false -> forall acts s s', Mid k s0 s -> For
 Proof.
   intros Hm0. induction acts as [|a acts IH]; intros s s' M Hok H; cbn [act_ops map run_group] in H.
   - inversion H; subst. exact M.
-  - inversion Hok as [|? ? Ha Hok']; subst. destruct a as [p q|]; cbn [step] in H.
+  - inversion Hok as [|? ? Ha Hok']; subst. destruct a as [p q| |cf]; cbn [step] in H.
     + destruct Ha as [Hp Hw]. destruct (mid_write k s0 s p q M Hm0 Hp Hw) as [M1 E1].
       destruct (op_write_page s p q) as [oc s1]. cbn [fst snd] in *. subst oc. apply (IH s1 s' M1 Hok' H).
     + destruct (op_truncate s (pageN s0)) as [oc s1] eqn:Et. destruct oc; cbn [ocode] in H; try (inversion H; fail).
       rewrite <- (m_pn k s0 s M) in Et. apply (IH s1 s' (mid_truncate k s0 s s1 M Et) Hok' H).
+    + apply (IH s s' M Hok' H).
 Qed.
 
 Lemma j_truncate s n s' : J s -> op_truncate s n = (Done, s') -> J s' /\ txid s' = txid s /\ pageN s' = pageN s.
